@@ -415,3 +415,12 @@ def run(ctx, R):
     from psa.rules import c02
     c02.r21(ctx, R, 'R13.3')
     r134(ctx, R)
+    from psa import sqlshape
+    n = sqlshape.shape_rule(ctx, R, 'R13.5', [
+        RC + ':provider_ids_matching_aggregates',
+        RC + ':provider_ids_matching_required_traits',
+        RC + ':get_provider_ids_having_any_trait',
+        RC + ':provider_ids_from_uuid',
+        RC + ':get_providers_with_resource', RC + ':_usage_select',
+        DBF])
+    R.count('R13.5', n, 7)
